@@ -63,6 +63,10 @@ def memsSwap (size : Nat) : List Mem :=
   [some 0, some 3, some 5, some 9, some 12, some 13].flatMap fun b =>
     [0, 8, -0x81].map fun d => mkMem size false b (some 4) 1 d
 
+/-- a stack pointer written as a lone unscaled index: `[1*rsp]`, `[1*rsp+disp]`, `[1*esp+disp]` (the same address as `[rsp+disp]`) -/
+def memsLoneSp (size : Nat) : List Mem :=
+  ([0, 8, -0x81].map fun d => mkMem size false none (some 4) 1 d) ++ [mkMem size true none (some 4) 1 8]
+
 def memsFew (size : Nat) : List Mem := [mkMem size false (some 3) none 1 0, mkMem size false (some 13) (some 1) 4 (-0x20)]
 
 def noMems (_ : Nat) : List Mem := []
@@ -110,7 +114,7 @@ def famC02 (level : Nat) : List Item :=
   (table.filter fun en => hasRm en && !hasRel en).flatMap fun en =>
     let rep := en.mn == "mov" && en.opc == 0x8B || en.mn == "paddb" || en.mn == "vaddpd" || en.mn == "lea"
     let mems0 := if level ≥ 2 && rep then memsFull else if level ≥ 1 || rep then memsKey else memsMid
-    let mems := fun sz => mems0 sz ++ memsSwap sz
+    let mems := fun sz => mems0 sz ++ memsSwap sz ++ memsLoneSp sz
     let f : Fill := { mems, imms := fewImm, rels8 := [], rels32 := [], regForm := false, memForm := true }
     let ds := fewRegs (enumEnc f en)
     items {} ds ++ (if rep || level ≥ 1 then items { scaleFirst := true, kwAlways := true, num := .dec } ds else [])
